@@ -1609,3 +1609,37 @@ func (f *Facts) callSummaryAtoms(call *ssa.Call, success bool) []Atom {
 	}
 	return out
 }
+
+// throughWrapperParams: v itself, or - when v is a parameter of an unexported module function whose call sites are
+// all known (a private wrapper around the call of interest) - the values its call sites hand in, transitively.
+func (f *Facts) throughWrapperParams(v ssa.Value, depth int) []ssa.Value {
+	prm, ok := v.(*ssa.Parameter)
+	if !ok || depth > 3 {
+		return []ssa.Value{v}
+	}
+	fn := prm.Parent()
+	if f.sitesOf == nil {
+		f.buildCallSites()
+	}
+	if fn == nil || fn.Parent() != nil || token.IsExported(fn.Name()) || f.addrTaken[fn] || len(f.sitesOf[fn]) == 0 {
+		return []ssa.Value{v}
+	}
+	if fn.Signature.Recv() != nil && f.ifaceDeclares(fn.Name()) {
+		return []ssa.Value{v}
+	}
+	idx := -1
+	for i, q := range fn.Params {
+		if q == prm {
+			idx = i
+		}
+	}
+	var out []ssa.Value
+	for _, c := range f.sitesOf[fn] {
+		args := c.Common().Args
+		if idx < 0 || idx >= len(args) {
+			return []ssa.Value{v}
+		}
+		out = append(out, f.throughWrapperParams(args[idx], depth+1)...)
+	}
+	return out
+}
